@@ -2,7 +2,6 @@ package main
 
 import (
 	"context"
-	"encoding/hex"
 	"fmt"
 	"sync"
 	"time"
@@ -45,7 +44,7 @@ func idInts(id p2p.PeerID) []int {
 }
 
 func (h *harvester) fp(kind string, key *x509.PublicKey, site string, id p2p.PeerID) {
-	h.fw.Emit(FpEvent{Ev: "fp", Kind: kind, Key: hex.EncodeToString(x509.MarshalPublicKey(nil, key)), Site: site, ID: idInts(id)})
+	h.fw.Emit(FpEvent{Ev: "fp", Kind: kind, Key: keyID(key), Site: site, ID: idInts(id)})
 	h.nfp++
 }
 
